@@ -589,3 +589,163 @@ class PullSetupOpsOutOfLoops_contract:
 
     def canary(sh, a, ret):
         check("canary: nothing is ever hoisted", len(ret) == 0)
+
+
+# ===================================================================================================
+# C07: threading of states through control flow (_weave_states_in_region), one op at a time.
+# TRUTH: at every program point a partial map T: accelerator -> the SSA state value that is the latest state of that
+# accelerator on EVERY path reaching the point (absent when unknown).  Soundness of the woven state S: S is a sub-map of T.
+# The transfer function of each op kind is stated below; recursive calls use the function's own contract:
+# "given S_in sub-map of T_entry the returned dict is a sub-map of T_exit" with T_exit an arbitrary ghost map.
+# ===================================================================================================
+import snaxc.transforms.convert_linalg_to_accfg as l2a  # noqa: E402
+
+ACCS = ("acc", "other")
+W = {}
+
+
+def mk_acc_state(sym, pfx, base):
+    """a state dict over the accelerator universe with symbolic presence; values are identity-tagged state values"""
+    d = {}
+    for i, a in enumerate(W.get("accs", ACCS)):
+        if sym.bool(f"{pfx}_has_{a}"):
+            d[a] = mk_ident_value(sym.int(f"{pfx}_{a}", base, base + 2), accfg.StateType(a))
+    return d
+
+
+def weave_rec(local):
+    """the function's own contract for recursive calls: the result is SOME state that is a sub-map of the ghost truth at
+    the exit of that container (fixed in args); the container's ops are not touched"""
+    c = local["container"]
+    for cont, st in W["rec"]:
+        if cont is c:
+            return dict(st)
+    return {}
+
+
+def effects_flag(local):
+    return getattr(local["op"], "fx", False)
+
+
+def nested_accs(local):
+    """find_all_acc_names_in_region through its (assumed) contract: the ghost set of accelerators set up inside"""
+    owner = local["reg"].parent
+    return set(getattr(owner, "nested", []))
+
+
+class RegionOpView(Operation):
+    """an op with regions that is neither scf.if nor scf.for; ghost: fx = it (or something nested) has accfg effects,
+    nested = accelerators set up somewhere inside it"""
+
+    def __init__(self, fx, nested, has_regions):
+        self._init_op([], [], [])
+        self.fx = fx
+        self.nested = nested
+        if has_regions:
+            r = Region([Block([])])
+            r.parent = self
+            self.regions = [r]
+
+
+WEAVE_SHAPES = ([dict(kind="setup", has_in=h) for h in (False, True)] + [dict(kind="if"), dict(kind="region_op"), dict(kind="effect"), dict(kind="plain")])
+
+
+@contract
+class weave_states_transfer_contract:
+    target = "snaxc.transforms.convert_linalg_to_accfg._weave_states_in_region"
+    shapes = WEAVE_SHAPES
+    native = False
+    total = True
+    permissive = True
+    modular = {"snaxc.transforms.convert_linalg_to_accfg._weave_states_in_region": weave_rec,
+               "snaxc.inference.helpers.has_accfg_effects": effects_flag,
+               "snaxc.inference.helpers.find_all_acc_names_in_region": nested_accs}
+
+    def args(sh, sym):
+        W["rec"] = []
+        # the conditions are pointwise in the accelerator: the if case is explored for one accelerator
+        W["accs"] = ("acc",) if sh["kind"] == "if" else ACCS
+        ACCS_ = W["accs"]
+        T = mk_acc_state(sym, "T", 0)          # truth before the op
+        S = {}
+        for a in ACCS_:                         # the woven state: any sub-map of the truth
+            if a in T and sym.bool(f"S_has_{a}"):
+                S[a] = T[a]
+        kind = sh["kind"]
+        extra = {}
+        if kind == "setup":
+            ins = mk_ident_value(sym.int("ins", 0, 4), accfg.StateType("acc")) if sh["has_in"] else None
+            op = accfg.SetupOp([mk_ident_value(50)], ["A"], "acc", ins)
+        elif kind == "if":
+            op = scf.IfOp(mk_ident_value(51), [], Region([Block([scf.YieldOp()])]), Region([Block([scf.YieldOp()])]))
+            Tt, Te = mk_acc_state(sym, "Tthen", 10), mk_acc_state(sym, "Telse", 10)
+            # values unchanged inside a branch are the incoming ones: let the ghost truths also range over the old values
+            for a in ACCS_:
+                if a in T and sym.bool(f"then_keeps_{a}"):
+                    Tt[a] = T[a]
+                if a in T and sym.bool(f"else_keeps_{a}"):
+                    Te[a] = T[a]
+            St = {a: Tt[a] for a in ACCS_ if a in Tt and sym.bool(f"St_has_{a}")}
+            Se = {a: Te[a] for a in ACCS_ if a in Te and sym.bool(f"Se_has_{a}")}
+            W["rec"] = [(op.true_region, St), (op.false_region, Se)]
+            extra = dict(Tt=Tt, Te=Te)
+        elif kind == "region_op":
+            op = RegionOpView(sym.bool("fx"), [a for a in ACCS if sym.bool(f"nested_{a}")], True)
+        elif kind == "effect":
+            op = RegionOpView(True, [], False)
+        else:
+            op = RegionOpView(False, [], False)
+        return [Region([Block([op])]), dict(S), op, T, dict(S), extra]
+
+    def run(sh, a):
+        rw = PatternRewriter(a[2])
+        out = l2a._weave_states_in_region(a[0], a[1], rw)
+        return (out, rw.log)
+
+    def ensures(sh, a, ret):
+        region, S_mut, op, T, S_in, extra = a
+        out, log = ret
+        kind = sh["kind"]
+        check("the returned dict is the (mutated) dict that was passed in", out is S_mut)
+        if kind == "setup":
+            reps = [e for e in log if e[0] == "replace_op"]
+            final = reps[-1][2][0] if len(reps) > 0 else op
+            check("the setup keeps its values, field names and accelerator", list(final.values) == list(op.values) and final.param_names == op.param_names and final.accelerator == op.accelerator)
+            if "acc" in S_in:
+                check("threading: the setup is linked to the state that really precedes it", final.in_state == S_in["acc"])
+            else:
+                check("a setup without known predecessor keeps its incoming state", final is op)
+            T_after = dict(T)
+            T_after["acc"] = final.out_state
+            check("sound after the setup", submap(out, T_after))
+            check("the new state of the accelerator is the setup's result", "acc" in out and out["acc"] is final.out_state)
+        elif kind == "if":
+            Tt, Te = extra["Tt"], extra["Te"]
+            reps = [e for e in log if e[0] == "replace_op"]
+            new_if = [e[2][0] for e in reps if e[1] is op]
+            yields = {id(r): None for r in ()}
+            for acc_name in ACCS:
+                if acc_name in out:
+                    v = out[acc_name]
+                    unchanged = acc_name in Tt and acc_name in Te and v == Tt[acc_name] and v == Te[acc_name]
+                    carried = False
+                    if len(new_if) == 1 and any(v is r for r in new_if[0].results):
+                        k = [i for i, r in enumerate(new_if[0].results) if r is v][0]
+                        yt = [e[2][0] for e in reps if e[1] is op.true_region.block.last_op or (len(e[2]) == 1 and isinstance(e[2][0], scf.YieldOp) and e[1].parent is op.true_region.block)]
+                        ye = [e[2][0] for e in reps if len(e[2]) == 1 and isinstance(e[2][0], scf.YieldOp) and e[1].parent is op.false_region.block]
+                        yt = [e[2][0] for e in reps if len(e[2]) == 1 and isinstance(e[2][0], scf.YieldOp) and e[1].parent is op.true_region.block]
+                        if len(yt) == 1 and len(ye) == 1 and k < len(yt[0].operands) and k < len(ye[0].operands):
+                            carried = (acc_name in Tt and acc_name in Te and yt[0].operands[k] == Tt[acc_name] and ye[0].operands[k] == Te[acc_name])
+                    check(f"after the if, the state assumed for '{acc_name}' holds on BOTH paths (unchanged in both, or a new if-result carrying both)", unchanged or carried)
+        elif kind == "region_op":
+            for acc_name in ACCS:
+                if acc_name in out:
+                    check(f"after an op with nested regions, '{acc_name}' is still assumed only if nothing inside may have changed it",
+                          not op.fx and acc_name not in op.nested and acc_name in T and out[acc_name] == T[acc_name])
+        elif kind == "effect":
+            check("after an op that may reconfigure the accelerators nothing is assumed", len(out) == 0)
+        else:
+            check("an op without effects leaves the state as it was", submap(out, T) and len(out) == len(S_in))
+
+    def canary(sh, a, ret):
+        check("canary: the state is always empty afterwards", len(ret[0]) == 0)
